@@ -24,6 +24,18 @@ type streamCase struct {
 	FileType int              `json:"file_type"`
 	Stream   *fitmodel.Stream `json:"stream"`
 	Text     string           `json:"text"`
+	// Chained: decode the stream as the second file of a chain whose first
+	// file (chainHead) carries a full timestamp
+	Chained bool `json:"chained,omitempty"`
+}
+
+func chainHead() streamCase {
+	first := &fitmodel.Stream{HeaderSize: 12, Proto: 0x20, Recs: []fitmodel.Rec{
+		{IsDef: true, Global: 0, Fields: []fitmodel.FieldDef{{Num: 0, Size: 1, Base: 0}}}, {Raw: []byte{4}},
+		{IsDef: true, Local: 1, Global: 20, Fields: []fitmodel.FieldDef{{Num: 253, Size: 4, Base: 0x86}}},
+		{Local: 1, Raw: []byte{0x05, 0xCA, 0x9A, 0x3B}},
+	}}
+	return streamCase{FileType: 4, Stream: first, Text: first.String()}
 }
 
 // timeMsgs: messages that have a timestamp (253), another date_time or a
@@ -151,6 +163,36 @@ func arithmetic(rec *hx.Recorder) {
 	rec.NonTrivialEnum(n)
 }
 
+// checkChain: in a chain every file follows the time rules on its own (the
+// reference of one file does not carry into the next).
+func checkChain(rec *hx.Recorder, cs []streamCase) (string, bool) {
+	var chain []byte
+	for _, c := range cs {
+		chain = append(chain, c.Stream.Bytes()...)
+	}
+	var fs []*fit.File
+	var err error
+	if p := oracle.Catch(func() { fs, err = fit.DecodeChained(bytes.NewReader(chain)) }); p != nil {
+		return fmt.Sprintf("DecodeChained panicked: %v", p), false
+	}
+	if err != nil || len(fs) != len(cs) {
+		return fmt.Sprintf("DecodeChained: err=%v, %d files for %d", err, len(fs), len(cs)), false
+	}
+	tab := prof.Table()
+	for i, c := range cs {
+		ip := fitmodel.Interpret(c.Stream, tab)
+		exp := oracle.Expect(ip, fit.FileType(c.FileType), true)
+		diffs, _, _ := oracle.Compare(fs[i], exp, oracle.CompareOpts{})
+		for _, d := range diffs {
+			if d.AccDst {
+				continue
+			}
+			return fmt.Sprintf("file %d of the chain: %s\nstream: %s", i+1, d.String(), c.Text), false
+		}
+	}
+	return "", true
+}
+
 func TestC12(t *testing.T) {
 	hx.Main(t, "C12", func(rec *hx.Recorder) {
 		if rp, ok := hx.LoadReplay(); ok {
@@ -160,6 +202,12 @@ func TestC12(t *testing.T) {
 			}
 			c.Text = c.Stream.String()
 			rec.Eval("replay", 1)
+			if c.Chained {
+				if msg, ok := checkChain(rec, []streamCase{chainHead(), c}); !ok {
+					rec.Fail(rp.Sub, "", "in a chain: "+msg, c)
+				}
+				return
+			}
 			if msg, ok := checkStream(rec, c, map[string]int{}); !ok {
 				rec.Fail(rp.Sub, "", msg, c)
 			}
@@ -204,6 +252,15 @@ func TestC12(t *testing.T) {
 			}
 			if !ok {
 				fail("", msg, c)
+			}
+			// every 4th case: the same stream as second file of a chain whose
+			// first file left a reference behind
+			if len(s.Recs)%4 == 0 {
+				rec.Eval("chained", 1)
+				if msg, ok := checkChain(rec, []streamCase{chainHead(), c}); !ok {
+					c.Chained = true
+					fail("", "in a chain: "+msg, c)
+				}
 			}
 		})
 	})
